@@ -55,6 +55,7 @@ theorem finv_init (F base : Nat) : FInv F (init base (4096 * 2 ^ F)) := by
 theorem finv_popOne {F : Nat} {s s' : State} {p : Nat} (h : FInv F s) (hp : popOne s = .ok (p, s')) :
     FInv F s' ∧ s'.base = s.base ∧ ∀ q, (q = p ∨ Tracked s q) → Tracked s' q := by
   unfold popOne at hp
+  rw [allocMulti_pos s (by decide)] at hp
   split at hp
   · cases hp
   · split at hp
@@ -117,7 +118,12 @@ theorem finv_popN {F : Nat} : ∀ (k : Nat) (s s' : State) (ps : List Nat), FInv
 
 theorem finv_amOp {F : Nat} {s s' : State} {ps : List Nat} {n : Nat} (h : FInv F s) (hp : amOp s n = .ok (ps, s')) :
     FInv F s' ∧ s'.base = s.base ∧ ∀ q, (q ∈ ps ∨ Tracked s q) → Tracked s' q := by
+  by_cases hn0 : n = 0
+  · subst hn0
+    obtain ⟨rfl, rfl⟩ := amOp_zero_ok hp
+    exact ⟨h, rfl, fun q hq => hq.elim (fun hh => by cases hh) id⟩
   unfold amOp at hp
+  rw [allocMulti_pos s hn0] at hp
   split at hp
   · cases hp
   · split at hp
